@@ -15,7 +15,8 @@ def replay(ctx, rep):
     if case.get('scenario'):
         return common.scenario_replay(ctx, rep, {'proxy': proxy_scenarios, 'evolving': evolving_scenarios,
                                                    'oppfilled': opposite_filled_scenarios,
-                                                   'slicedel': slice_then_delete_scenarios})
+                                                   'slicedel': slice_then_delete_scenarios,
+                                                   'inherited': inherited_reference_scenarios})
     r = krun.Run(case, ['C07']).run()
     for s in r.steps:
         print(s['op'], '->', s['outcome'])
@@ -608,7 +609,8 @@ def slice_then_delete_scenarios(ctx, out):
     from pyecore import ecore as E
     rng = common.rng_for(ctx.seed, 'C07:slicedel')
     n = 150 if ctx.tier != 'thorough' else 3000
-    cnt = overl = 0
+    cnt = overl = tied = 0
+    model = common.Model()
     for it in range(n):
         A = E.EClass('A')
         B = E.EClass('B')
@@ -654,8 +656,22 @@ def slice_then_delete_scenarios(ctx, out):
                 continue                                       # an empty right-hand side is not this family's subject
             if any(v is x for v in vals for x in L[i:j]):
                 overl += 1
+            ptok = {id(b): k2 for k2, b in enumerate(pool)}
+            before = [ptok[id(x)] for x in L]
             L[i:j] = vals
             hist.append([name[id(owner)], f + '[%d:%d] =' % (i, j), [name[id(v)] for v in vals]])
+            # tie to the Coq model (Model/Slice.v release_then_link, extracted run_sliceinv; theorems
+            # C07_slice_assignment_keeps_the_inverse_bookkeeping / C07_link_then_release_refuted): the new list and, for
+            # every object involved, whether it records "(owner, feature) refers to me" afterwards
+            vt = [ptok[id(v)] for v in vals]
+            mo = model.ask('sliceinv', [0, 1, i, 1, j, len(vt)] + vt + [len(before)] + before)
+            feat = owner.eClass.findEStructuralFeature(f)
+            got = [len(L)] + [ptok[id(x)] for x in L] + \
+                [1 if (owner, feat) in pool[t]._inverse_rels else 0 for t in before + vt]
+            tied += 1
+            if mo != got:
+                out.diff(f'slice inverse-bookkeeping model vs impl after {hist[-1]} on {before}: model {mo} impl {got}',
+                         {'scenario': 'slicedel', 'seed': ctx.seed, 'tier': ctx.tier, 'history': list(hist)})
 
         def snap():
             d = {}
@@ -699,7 +715,9 @@ def slice_then_delete_scenarios(ctx, out):
         if bad:
             sig['clause'] = bad[0]
             out.fail(sig, f'after {hist}: {bad[1]}', case)
+    model.close()
     out.coverage['slice_then_delete_cases'] = cnt
+    out.coverage['slice_inverse_bookkeeping_compared_with_model'] = tied
     out.coverage['slice_then_delete_overlapping_assignments'] = overl
 
 
@@ -709,3 +727,131 @@ _run_o = run
 def run(ctx, out):   # noqa: F811
     _run_o(ctx, out)
     slice_then_delete_scenarios(ctx, out)
+
+
+# ---------------------------------------------------------------------------
+# references INHERITED by the deleted object's class: through eSuperTypes, through a chain of them, or through a
+# generic super type alone (eGenericSuperTypes) - delete() must clean them like the class's own (implementation oracle)
+# ---------------------------------------------------------------------------
+def inherited_reference_scenarios(ctx, out):
+    from harness import common
+    common.use_repo()
+    from pyecore import ecore as E
+    rng = common.rng_for(ctx.seed, 'C07:inherited')
+    n = 80 if ctx.tier != 'thorough' else 2000
+    cnt = 0
+    ways = {}
+    for it in range(n):
+        Node = E.EClass('Node')
+        Node.eStructuralFeatures.append(E.EReference('friend', Node))
+        Node.eStructuralFeatures.append(E.EReference('friends', Node, upper=-1))
+        Base = E.EClass('Base', superclass=(Node,)) if rng.random() < 0.5 else E.EClass('Base')
+        Base.eStructuralFeatures.append(E.EReference('target', Node))
+        Base.eStructuralFeatures.append(E.EReference('targets', Node, upper=-1))
+        Base.eStructuralFeatures.append(E.EReference('kids', Node, upper=-1, containment=True))
+        Base.eStructuralFeatures.append(E.EReference('kid', Node, containment=True))
+        way = rng.choice(['super', 'chain', 'generic', 'generic-chain', 'own'])
+        ways[way] = ways.get(way, 0) + 1
+        if way == 'own':
+            D = Base
+        elif way == 'super':
+            D = E.EClass('Derived', superclass=(Base,))
+        elif way == 'chain':
+            Mid = E.EClass('Mid', superclass=(Base,))
+            D = E.EClass('Derived', superclass=(Mid,))
+        elif way == 'generic':
+            D = E.EClass('Derived')
+            D.eGenericSuperTypes.append(E.EGenericType(eClassifier=Base))
+        else:
+            Mid = E.EClass('Mid')
+            Mid.eGenericSuperTypes.append(E.EGenericType(eClassifier=Base))
+            D = E.EClass('Derived', superclass=(Mid,))
+        if sorted(f.name for f in D.eAllStructuralFeatures() if f.name in ('target', 'targets', 'kids', 'kid')) != \
+                ['kid', 'kids', 'target', 'targets']:
+            continue                                           # the features are not inherited this way: nothing to delete
+        x = D()
+        nodes = [Node() for _ in range(5)]
+        name = {id(x): 'x'}
+        name.update({id(o): 'n%d' % i for i, o in enumerate(nodes)})
+        hist = [['inherit', way]]
+        free = list(nodes)
+        rng.shuffle(free)
+        kids = [free.pop() for _ in range(rng.randrange(0, 3))]
+        for k in kids:
+            x.kids.append(k)
+        if free and rng.random() < 0.5:
+            k1 = free.pop()
+            x.kid = k1
+            kids.append(k1)
+        hist.append(['kids', [name[id(k)] for k in kids]])
+        if rng.random() < 0.7:
+            x.target = rng.choice(nodes)
+            hist.append(['target', name[id(x.target)]])
+        for t in rng.sample(nodes, rng.randrange(0, 4)):
+            x.targets.append(t)
+            hist.append(['targets.append', name[id(t)]])
+        for o in nodes:
+            if rng.random() < 0.6:
+                o.friend = rng.choice(nodes)
+                hist.append([name[id(o)], 'friend', name[id(o.friend)]])
+            for t in rng.sample(nodes, rng.randrange(0, 3)):
+                o.friends.append(t)
+                hist.append([name[id(o)], 'friends.append', name[id(t)]])
+
+        def snap():
+            d = {}
+            for o in [x] + nodes:
+                e = {}
+                for ft in o.eClass.eAllStructuralFeatures():
+                    if not isinstance(ft, E.EReference):
+                        continue
+                    v = o.eGet(ft)
+                    e[ft.name] = [name[id(y)] for y in v] if ft.many else (None if v is None else name[id(v)])
+                c = o.eContainer()
+                d[name[id(o)]] = (e, None if c is None else name[id(c)])
+            return d
+        before = snap()
+        recursive = rng.random() < 0.7
+        hist.append(['x.delete', recursive])
+        case = {'scenario': 'inherited', 'seed': ctx.seed, 'tier': ctx.tier, 'history': hist}
+        sig = {'property': 'C07', 'scenario': 'inherited', 'clause': 'raised', 'way': way}
+        try:
+            x.delete(recursive=recursive)
+        except Exception as e:  # noqa
+            out.fail(sig, f'x.delete(recursive={recursive}) raised {type(e).__name__}: {e} after {hist}', case)
+            continue
+        cnt += 1
+        after = snap()
+        dead = {'x'} | ({name[id(k)] for k in kids} if recursive else set())
+        bad = None
+        for on, (feats, cont) in after.items():
+            for ft, v in feats.items():
+                old = before[on][0][ft]
+                if on in dead:
+                    if v not in (None, []) and not (on == 'x' and ft in ('kids', 'kid') and not recursive):
+                        bad = ('deleted-holds-references', f'{on}.{ft} still holds {v}')
+                else:
+                    exp = [y for y in old if y not in dead] if isinstance(old, list) else (None if old in dead else old)
+                    if (isinstance(v, list) and set(v) & dead) or (not isinstance(v, list) and v in dead):
+                        bad = ('dangling', f'{on}.{ft} still holds deleted objects: {v}')
+                    elif v != exp:
+                        bad = ('survivor-changed', f'{on}.{ft} was {old}, is {v}')
+                if bad:
+                    break
+            if not bad and on in dead and cont is not None and recursive:
+                bad = ('deleted-keeps-container', f'{on} still has the container {cont}')
+            if bad:
+                break
+        if bad:
+            sig['clause'] = bad[0]
+            out.fail(sig, f'after {hist}: {bad[1]}', case)
+    out.coverage['inherited_reference_delete_cases'] = cnt
+    out.coverage['inherited_reference_ways'] = ways
+
+
+_run_s = run
+
+
+def run(ctx, out):   # noqa: F811
+    _run_s(ctx, out)
+    inherited_reference_scenarios(ctx, out)
